@@ -272,7 +272,11 @@ func run() int {
 		"checks_per_shard":    checks,
 	}
 	for k, v := range total.Extra {
-		cov[k] = v
+		if f, ok := v.(float64); ok && f == float64(int64(f)) {
+			cov[k] = int64(f) // counters travel as floats through the shard reports
+		} else {
+			cov[k] = v
+		}
 	}
 	if cfg.Exhaustive {
 		cov["exhaustive_subspace"] = true
